@@ -5,6 +5,7 @@ import (
 	"path/filepath"
 	"sync"
 	"sync/atomic"
+	"syscall"
 	"testing"
 
 	"pgregory.net/rapid"
@@ -80,6 +81,39 @@ func c14CheckCopy(img []byte, n int64, size int64, rid int, want *model.Bucket, 
 	return nil
 }
 
+// c14MovePath renames the data file away and puts a different (valid, empty) database at its path; the
+// returned function undoes that. The open handle of the database under test keeps referring to the moved file.
+func c14MovePath(e *drv.Env) (func(), *drv.Violation) {
+	moved := e.Path + ".moved"
+	if err := os.Rename(e.Path, moved); err != nil {
+		return nil, drv.Violf("rename: %v", err)
+	}
+	restore := func() {
+		_ = os.Remove(e.Path)
+		_ = os.Rename(moved, e.Path)
+	}
+	// built under another name (the I/O hook dispatches by path) and renamed into place
+	decoy, err := bolt.Open(e.Path+".decoy", 0o600, &bolt.Options{PageSize: e.PageSize, NoFreelistSync: true})
+	if err == nil {
+		err = decoy.Update(func(tx *bolt.Tx) error {
+			b, err := tx.CreateBucket([]byte("decoy"))
+			if err != nil {
+				return err
+			}
+			return b.Put([]byte("decoy"), make([]byte, 3*e.PageSize))
+		})
+		_ = decoy.Close()
+	}
+	if err == nil {
+		err = os.Rename(e.Path+".decoy", e.Path)
+	}
+	if err != nil {
+		restore()
+		return nil, drv.Violf("decoy database: %v", err)
+	}
+	return restore, nil
+}
+
 func c14Cfg(excluded *int) gen.Cfg {
 	cfg := c04Cfg(excluded)
 	cfg.ErrProbes, cfg.Cursors, cfg.Probes, cfg.Readers, cfg.Reopen = false, false, false, false, false
@@ -149,13 +183,37 @@ func TestC14(t *testing.T) {
 		R := e.ROTx(1)
 		want := e.ROModel(1)
 		rid := e.ROTxid(1)
-		mode := rapid.SampledFrom([]string{"writeto", "writeto", "copyfile"}).Draw(rt, "mode")
-		e.Log = append(e.Log, drv.Op{Op: "backup", Note: mode})
+		mode := rapid.SampledFrom([]string{"writeto", "writeto", "copyfile", "copy"}).Draw(rt, "mode")
+		// Tx.WriteFlag != 0 makes the copy re-open the file by path (and fall back to the open handle when the path
+		// no longer names the same file); "moved" replaces the path by another database for the duration of the copy
+		wflag := rapid.SampledFrom([]int{0, 0, syscall.O_NOATIME, syscall.O_DSYNC}).Draw(rt, "writeflag")
+		moved := wflag != 0 && rapid.IntRange(0, 3).Draw(rt, "moved") == 0
+		bop := drv.Op{Op: "backup", Note: mode, U: uint64(wflag)}
+		if moved {
+			bop.To = 1
+		}
+		e.Log = append(e.Log, bop)
 		var img []byte
 		var n int64
 		size := R.Size()
+		R.WriteFlag = wflag
+		restore := func() {}
+		if moved {
+			r, v := c14MovePath(e)
+			if v != nil {
+				fail(v)
+			}
+			restore = r
+			e.Label("path-replaced-during-copy")
+		}
+		if wflag != 0 {
+			e.Label("writeflag")
+		}
 		if mode == "writeto" {
 			burst := rapid.IntRange(0, 12).Draw(rt, "burst")
+			if moved {
+				burst = 0 // the harness' own oracles read the file by path
+			}
 			w := &hookWriter{between: func() {
 				for i := 0; i < burst; i++ {
 					step()
@@ -163,14 +221,25 @@ func TestC14(t *testing.T) {
 			}}
 			var err error
 			n, err = R.WriteTo(w)
+			restore()
 			if err != nil {
 				fail(drv.Violf("WriteTo: %v", err))
 			}
 			img = w.buf
 			col.Count("write_calls", w.calls)
+		} else if mode == "copy" {
+			w := &hookWriter{}
+			err := R.Copy(w)
+			restore()
+			if err != nil {
+				fail(drv.Violf("Copy: %v", err))
+			}
+			img, n = w.buf, int64(len(w.buf))
 		} else {
 			dst := filepath.Join(e.Dir, "copy.db")
-			if err := R.CopyFile(dst, 0o600); err != nil {
+			err := R.CopyFile(dst, 0o600)
+			restore()
+			if err != nil {
 				fail(drv.Violf("CopyFile: %v", err))
 			}
 			img, _ = os.ReadFile(dst)
@@ -304,6 +373,22 @@ func replayC14(t *testing.T, d replayDoc) *drv.Violation {
 					hv = e.Apply(rest[pos])
 					pos++
 				}
+			}
+			R.WriteFlag = int(op.U)
+			if op.To == 1 {
+				restore, v := c14MovePath(e)
+				if v != nil {
+					return v
+				}
+				defer restore()
+				w.between = nil
+			}
+			if op.Note == "copy" {
+				cw := &hookWriter{}
+				if err := R.Copy(cw); err != nil {
+					return drv.Violf("Copy: %v", err)
+				}
+				return c14CheckCopy(cw.buf, int64(len(cw.buf)), size, rid, want, "copy")
 			}
 			if op.Note == "copyfile" {
 				dst := filepath.Join(e.Dir, "copy.db")
